@@ -173,6 +173,17 @@ static int rint(int lo, int hi)
   return static_cast<int>(static_cast<int64_t>(lo) + static_cast<int64_t>(rnd() % span));
 }
 
+// timeouts: the values with a meaning of their own (until-deadline, infinite, zero, one, the largest) half of the time
+static int tmo(int hi)
+{
+  static const int EDGE[] = { -2, -1, 0, 1, INT_MAX };
+  if (rnd() % 2) {
+    int v = EDGE[rnd() % 5];
+    return v;
+  }
+  return rint(0, hi);
+}
+
 static void viol(const char *cls, const std::string &what, const std::string &msg)
 {
   st_viol++;
@@ -241,9 +252,9 @@ static void fill_options(reproc::options &o, int only, std::vector<std::pair<std
   if (on(F_FILE)) o.redirect.file = reinterpret_cast<FILE *>(static_cast<uintptr_t>(0x7770));
   if (on(F_PATH)) o.redirect.path = "short-path";
   if (on(F_STOP)) {
-    o.stop.first = { static_cast<reproc::stop>(rint(0, 3)), reproc::milliseconds(rint(-2, 100000)) };
+    o.stop.first = { static_cast<reproc::stop>(rint(0, 3)), reproc::milliseconds(tmo(100000)) };
     o.stop.second = { static_cast<reproc::stop>(rint(0, 3)), reproc::milliseconds(rint(-2, INT_MAX)) };
-    o.stop.third = { static_cast<reproc::stop>(rint(0, 3)), reproc::milliseconds(rint(1, 7)) };
+    o.stop.third = { static_cast<reproc::stop>(rint(0, 3)), reproc::milliseconds(rnd() % 2 ? tmo(7) : rint(1, 7)) };
   }
   if (on(F_DEADLINE)) o.deadline = reproc::milliseconds(rnd() % 3 == 0 ? INT_MAX : rint(1, 1000000));
   if (on(F_INPUT)) {
@@ -402,8 +413,8 @@ static void check_methods()
       if (res.first != r || !ec_matches(res.second, r)) method_viol("pid", r, "value/error not the C result");
     }
     {
-      int to = rint(-2, 100000);
-      auto res = p.wait(reproc::milliseconds(to));
+      int to = tmo(100000);
+      auto res = to == -2 && rnd() % 2 ? p.wait(reproc::deadline) : to == -1 && rnd() % 2 ? p.wait(reproc::infinite) : p.wait(reproc::milliseconds(to));
       if (strcmp(g_last.fn, "wait") || g_last.a != to) method_viol("wait", r, "timeout not passed through");
       if (res.first != r || !ec_matches(res.second, r)) method_viol("wait", r, "value/error not the C result");
     }
@@ -438,9 +449,9 @@ static void check_methods()
       if (!ec_matches(ec, r)) method_viol("kill", r, "error not the C result");
     }
     {
-      reproc::stop_actions s{ { static_cast<reproc::stop>(rint(0, 3)), reproc::milliseconds(rint(-2, 9999)) },
-                              { static_cast<reproc::stop>(rint(0, 3)), reproc::milliseconds(rint(-2, 9999)) },
-                              { static_cast<reproc::stop>(rint(0, 3)), reproc::milliseconds(rint(-2, 9999)) } };
+      reproc::stop_actions s{ { static_cast<reproc::stop>(rint(0, 3)), reproc::milliseconds(tmo(9999)) },
+                              { static_cast<reproc::stop>(rint(0, 3)), reproc::milliseconds(tmo(9999)) },
+                              { static_cast<reproc::stop>(rint(0, 3)), reproc::milliseconds(tmo(9999)) } };
       auto res = p.stop(s);
       bool same = !strcmp(g_last.fn, "stop") && static_cast<int>(g_last.stop.first.action) == static_cast<int>(s.first.action) &&
                   g_last.stop.first.timeout == s.first.timeout.count() &&
@@ -452,7 +463,8 @@ static void check_methods()
       if (res.first != r || !ec_matches(res.second, r)) method_viol("stop", r, "value/error not the C result");
     }
     {
-      int interests = rint(0, 31), to = rint(-1, 5000), evs = rint(0, 31);
+      int interests = rint(0, 31), to = tmo(5000), evs = rint(0, 31);
+      if (to == -2) to = -1;
       g_poll_events = { evs };
       auto res = p.poll(interests, reproc::milliseconds(to));
       bool ok = !strcmp(g_last.fn, "poll") && g_last.a == 1 && g_last.b == to && g_last.sources.size() == 1 &&
